@@ -240,6 +240,10 @@ def tree_classes(d, w, first_trip_differs=True, skeleton=None):
     if w.get('pt') and any(k == 'textpath' and i in root_ids for k, ptr, i, ctx, via in wk.defs) and \
             (skeleton is None or textpaths_written_properly(skeleton, prefix, set(i for k, ptr, i, ctx, via in wk.defs if k == 'textpath'))):
         out.append('textpath-id-twice')
+    # a clipPath child group that holds something else than paths (a text or `use` with a transform: one more group level): the writer's
+    # clipPath branch writes only the DIRECT path children of a child group, the rest vanishes from the written <clipPath>
+    if any(ch['t'] == 'g' and any(x['t'] != 'path' for x in ch['children']) for c in d['clip_paths'] for ch in c['root']['children']):
+        out.append('clip-text-transform-dropped')
     if any(p['kind']['k'] == 'ColorMatrix' and p['kind']['kind']['k'] == 'Saturate' and isinstance(p['kind']['kind']['v'], (int, float))
            and p['kind']['kind']['v'] > 1 for f in d['filters'] for p in f['primitives']):
         out.append('saturate-above-one')
@@ -510,6 +514,12 @@ def run(ctx):
         docs.append(d)
         labels.append('text-matrix/' + lab)
         strict.add(len(docs) - 1)
+        for w in rtgen.OPTION_MATRIX:
+            cases.append((len(docs) - 1, dict(w)))
+    # text inside a clipPath (with a transform: one more group level; class clip-text-transform-dropped until fixed): all four option sets
+    for lab, d in rtgen.clip_text_docs():
+        docs.append(d)
+        labels.append('clip-text/' + lab)
         for w in rtgen.OPTION_MATRIX:
             cases.append((len(docs) - 1, dict(w)))
     outs = ctx.rvh_batch(binp, 'c08-render', ["-\t%s\t%s" % (c07.wopts_str(w), docs[k]) for k, w in cases], per_item_timeout=90, chunk=6)
